@@ -3,5 +3,5 @@ CONSTANTS MaxFaces = 2 MaxVal = 5 Emit = TRUE
   WidthPoints = {255, 256, 257, 65535, 65536, 65537, 2097151, 2097152}
 INIT Init
 NEXT Next
-INVARIANT Guards EmitRows
+INVARIANT Guards EmitRows HugeRows
 CHECK_DEADLOCK FALSE
